@@ -12,11 +12,15 @@ Definition gi_child_ok (ch : list node) : bool :=
   | None => true
   end.
 
+(* some configured extractor's FileRequired consults api.Stat() *)
+Definition stat_used (c : cfg) : bool :=
+  existsb (fun e => match c_statreq c e with Some _ => true | None => false end) (c_exts c).
+
 (* no lazy-stat fault under a size limit, no unreadable .gitignore under UseGitignore: the two fault sites whose
    error the engine returns from handleFile (see the _refuted theorems) *)
 Fixpoint tree_quiet (c : cfg) (nd : node) : bool :=
   match nd with
-  | File _ _ _ _ ff => negb ((0 <? c_max_size c)%Z && ff_stat ff)
+  | File _ _ _ _ ff => negb (ff_stat ff && ((0 <? c_max_size c)%Z || stat_used c))
   | Dir _ ch _ =>
       (negb (c_gitignore c) || gi_child_ok ch) &&
       (fix go (l : list node) : bool := match l with [] => true | c1 :: l' => tree_quiet c c1 && go l' end) ch
